@@ -506,11 +506,38 @@ func runFrame(fr *frame) {
 					fmt.Fprintln(os.Stderr, "\t", instr)
 				}
 			}
+			if fr.initMode {
+				if tolerantInstr(fr, instr) == kReturn {
+					return
+				}
+				continue
+			}
 			if visitInstr(fr, instr) == kReturn {
 				return
 			}
 		}
 	}
+}
+
+// tolerantInstr executes one instruction of a package initializer; if it
+// panics or is unmodelled its result becomes the zero value.
+func tolerantInstr(fr *frame, instr ssa.Instruction) (k continuation) {
+	defer func() {
+		if r := recover(); r != nil {
+			if pa, ok := r.(pathAbort); ok && (pa.kind == "infeasible" || pa.kind == "stop") {
+				panic(r)
+			}
+			if v, ok := instr.(ssa.Value); ok {
+				func() {
+					defer func() { recover() }()
+					fr.env[v] = zero(v.Type())
+				}()
+			}
+			fr.p.note("init %s: instruction skipped: %s", fr.fn.Pkg.Pkg.Path(), firstLine(fmt.Sprint(r)))
+			k = kNext
+		}
+	}()
+	return visitInstr(fr, instr)
 }
 
 func zeroResults(fn *ssa.Function) value {
